@@ -20,6 +20,7 @@ Inductive cexpr :=
 | COp (op : string) (args : list cexpr)                          (* overloaded operator call *)
 | CCons (args : list cexpr)                                      (* brace / constructor initialisation *)
 | CSeq (a b : cexpr)
+| CCond (c a b : cexpr)                                          (* c ? a : b *)
 | CDefaultedEq (fields : list string)
 | CUnknown (what : string).
 
@@ -104,6 +105,12 @@ Fixpoint eval (fuel : nat) (this : value) (params : list value) (e : cexpr) : va
                                                     | VTup [s; VZ i] => VTup [s; VZ (i - 1)] | _ => VErr "dec" end
                               | _ => VErr "dec" end
         else un op (eval f this params a)
+    | CCond c a b =>
+        match eval f this params c with
+        | VB true => eval f this params a
+        | VB false => eval f this params b
+        | _ => VErr "condition"
+        end
     | CSeq a b =>
         (* `++index; return *this;` : the updated iterator *)
         match a with
